@@ -9,6 +9,7 @@ from ..dataflow import expr_closure
 from ..guards import guard_facts
 from ..model import (AnalysisError, FuncInfo, Model, calls_in, callee_tail, find_calls, names_in, norm, short, walk_body,
                      walk_no_nested)
+from ..model import kwarg
 from ..report import RULES, RuleResult
 from .c09 import r09d_impl, r09e_impl
 
@@ -332,3 +333,33 @@ def r17g(model: Model, rr: RuleResult):
         rr.ok("#hex: every channel goes through int(.., 16), which rejects non-hex digits")
     else:
         rr.bad_shape(fi, fi.node, "#hex: channels are no longer converted by int(.., 16)", construct="Color.fromstring: hex conversion")
+
+
+NON_COLOUR_KEYWORDS = {"transparent", "none", "inherit", "currentcolor", "initial", "unset"}
+
+
+@RULES.rule("C17", "R17h", "nothing thins out the inputs before they are checked; the colour-name table holds opaque colours only", floor=2)
+def r17h(model: Model, rr: RuleResult):
+    fi = model.func("nanoemoji", "_run")
+    cfg = cfg_of(fi)
+    loads = [c for c in calls_in(fi) if callee_tail(c) in ("load_configs", "load") and kwarg(c, "additional_srcs") is not None]
+    if not loads:
+        raise AnalysisError("nanoemoji._run: config.load(..., additional_srcs=...) not found")
+    for c in loads:
+        a = kwarg(c, "additional_srcs")
+        _, exprs = expr_closure(cfg, cfg.node_for(c), a)
+        keyed = [n for e in exprs for n in ast.walk(e) if isinstance(n, (ast.DictComp, ast.SetComp)) or (isinstance(n, ast.Call) and isinstance(n.func, ast.Name) and n.func.id in ("set", "dict", "frozenset"))]
+        if keyed:
+            rr.bad(fi, c, f"the .svg arguments pass through {short(keyed[0], 70)} before config.load sees them: two different files with the same name (or key) collapse into one, "
+                   f"so the 'Input svgs must have unique names' check never fires and one source is dropped silently", construct=f"_run: additional_srcs via {type(keyed[0]).__name__}")
+        else:
+            rr.ok(f"_run: {short(c, 50)} receives every .svg argument")
+    table = model.mod("colors").const("_CSS_COLORS")
+    if not isinstance(table, ast.Dict):
+        raise AnalysisError("colors._CSS_COLORS is not a dict literal")
+    odd = [k.value for k in table.keys if isinstance(k, ast.Constant) and str(k.value).lower() in NON_COLOUR_KEYWORDS]
+    if odd:
+        rr.bad(model.mod("colors"), table, f"_CSS_COLORS maps {odd} to an RGB triple: the table carries no alpha, so the keyword is read as an opaque colour instead of being rejected as "
+               f"unsupported", construct=f"_CSS_COLORS: {odd}")
+    else:
+        rr.ok(f"_CSS_COLORS: {len(table.keys)} named colours, none of the non-colour keywords")
